@@ -16,6 +16,9 @@ const (
 	FaultSeqPlus
 	FaultSeqMinus
 	FaultChainID
+	// FaultTamper: the signatures are made over SignOver, the transaction that is sent carries Msgs (somebody altered
+	// the messages after they were signed)
+	FaultTamper
 )
 
 // TxSpec describes one transaction at the wire level.
@@ -29,6 +32,10 @@ type TxSpec struct {
 	Fault   int
 	// WrongKeyWith: account whose key signs instead (FaultWrongKey)
 	WrongKeyWith *Account
+	// Amino: sign with SIGN_MODE_LEGACY_AMINO_JSON (what hardware wallets use) instead of SIGN_MODE_DIRECT
+	Amino bool
+	// SignOver: the messages the signers saw (FaultTamper)
+	SignOver []sdk.Msg
 }
 
 // AccountNumSeq reads account number and sequence from ctx (0,0 if the account does not exist).
@@ -40,7 +47,7 @@ func (c *Chain) AccountNumSeq(ctx sdk.Context, addr sdk.AccAddress) (uint64, uin
 	return acc.GetAccountNumber(), acc.GetSequence()
 }
 
-// BuildTx signs a transaction with SIGN_MODE_DIRECT, reading account numbers and
+// BuildTx signs a transaction (SIGN_MODE_DIRECT unless spec.Amino), reading account numbers and
 // sequences from ctx. The memo is empty (determinism).
 func (c *Chain) BuildTx(ctx sdk.Context, spec TxSpec) (bz []byte, err error) {
 	defer func() {
@@ -50,8 +57,15 @@ func (c *Chain) BuildTx(ctx sdk.Context, spec TxSpec) (bz []byte, err error) {
 	}()
 	txConfig := c.App.TxConfig()
 	signMode := txConfig.SignModeHandler().DefaultMode()
+	if spec.Amino {
+		signMode = signing.SignMode_SIGN_MODE_LEGACY_AMINO_JSON
+	}
 	b := txConfig.NewTxBuilder()
-	if err := b.SetMsgs(spec.Msgs...); err != nil {
+	signed := spec.Msgs
+	if spec.Fault == FaultTamper && len(spec.SignOver) > 0 {
+		signed = spec.SignOver
+	}
+	if err := b.SetMsgs(signed...); err != nil {
 		return nil, err
 	}
 	b.SetFeeAmount(spec.Fee)
@@ -119,6 +133,11 @@ func (c *Chain) BuildTx(ctx sdk.Context, spec TxSpec) (bz []byte, err error) {
 	}
 	if err := b.SetSignatures(sigs...); err != nil {
 		return nil, err
+	}
+	if spec.Fault == FaultTamper && len(spec.SignOver) > 0 {
+		if err := b.SetMsgs(spec.Msgs...); err != nil {
+			return nil, err
+		}
 	}
 	return txConfig.TxEncoder()(b.GetTx())
 }
